@@ -149,7 +149,10 @@ def run(outdir, slot, k0, k1):
                 pk = ["-p", crate_of[top], "-p", "jsonrpsee-integration-tests", "-p", "jsonrpsee"]
                 if top in ("types", "core"):
                     pk += ["-p", "jsonrpsee-server", "-p", "jsonrpsee-ws-client", "-p", "jsonrpsee-http-client", "-p", "jsonrpsee-core"]
-                t = subprocess.run(["cargo", "nextest", "run", "--offline", "--no-fail-fast"] + pk, cwd=mw, env=tenv, capture_output=True, text=True)
+                t = subprocess.run(["timeout", "1200", "cargo", "nextest", "run", "--offline", "--no-fail-fast"] + pk, cwd=mw, env=tenv, capture_output=True, text=True)
+                if t.returncode == 124:
+                    subprocess.run(["pkill", "-f", f"/tmp/mt{slot}/debug/deps/"])
+                    t = subprocess.CompletedProcess(t.args, 1, "Summary [ timeout ]\n        FAIL [ timeout ] (1/1) suite hung\n", "")
                 fails = sorted(set(re.findall(r"^\s+FAIL \[[^\]]*\] (?:\([^)]*\) )?(\S+ \S+)", t.stdout + t.stderr, flags=re.M)))
                 fails = [f for f in fails if "https_works" not in f and "wss_works" not in f]
                 built = "Summary [" in (t.stdout + t.stderr)
